@@ -19,7 +19,7 @@ from vx.units.rlabels import add_reader_labels
 from vx.units.rbranch import add_branch_helpers
 
 PROPS = ['C01']
-RLIMIT = 100
+RLIMIT = 300
 R = 'duke/src/class_reader.rs'
 CC = 'duke/src/class_constants.rs'
 
